@@ -124,6 +124,49 @@ def run_crash(case):
     return res
 
 
+def run_bigsave(case):
+    """Scale: checkpoints of tens of MiB (thousands of particles, dimension 8, a history of dozens of batches): save, load into a fresh sampler
+    (exact restore), overwrite, and resume one iteration from it."""
+    res = Res()
+    cfg = dict(case["cfg"])
+    fs = MemFS()
+    p = Probe(cfg, base=case["base"], fs=fs)
+    p.steps(2)
+    if p.exc is not None:
+        res.bump("aborted")
+        return res
+    st = p.state
+    for k in range(case["extra_batches"]):  # a long history without paying for the likelihood calls: the current batch committed again and again
+        st.set_current("iter", int(st.get_current("iter")) + 1)
+        st.commit_current_to_history()
+    truth = _truth(p)
+    for rnd in range(2):
+        try:
+            with env.quiet(), p._stderr(), mounted(fs):
+                p.sampler.save_state(P)
+        except Exception as e:
+            res.violate(f"bigsave:save-raises:{type(e).__name__}", f"save_state of a large sampler state raised {e!r} (cfg={cfg}, {case['extra_batches']} extra batches)", dict(case))
+            return res
+        size = len(fs.files.get(P, b""))
+        res.evals += 1
+        res.bump("largest_checkpoint_bytes", 0)
+        res.extra["largest_checkpoint_bytes"] = max(res.extra.get("largest_checkpoint_bytes", 0), size)
+        try:
+            s2 = _load_fresh(cfg, _fs_with(dict(fs.files)), P)
+            if not _state_equal(s2, truth):
+                res.violate("bigsave:restore-not-exact", f"a checkpoint of {size} bytes loaded into a fresh sampler does not equal the state that was saved (cfg={cfg})", dict(case))
+        except Exception as e:
+            res.violate(f"bigsave:restore-raises:{type(e).__name__}", f"a checkpoint of {size} bytes written by save_state cannot be loaded: {e!r} (cfg={cfg})", dict(case))
+            return res
+    q = Probe(dict(cfg, n_total=10 ** 9), base=case["base"] + 1, fs=_fs_with(dict(fs.files)), iter_offset=int(st.get_current("iter")), max_iters=1)
+    q.run(resume_state_path=P)
+    if q.exc is not None and type(q.exc).__name__ != "Horizon":
+        res.violate(f"bigsave:resume-raises:{type(q.exc).__name__}", f"resuming from a checkpoint of {size} bytes raised {q.exc!r} (cfg={cfg})", dict(case))
+    res.outcome(("bigsave", tuple(sorted((k, repr(v)) for k, v in cfg.items())), case["extra_batches"]), nontrivial=True)
+    res.states += 1
+    return res
+
+
 def run_recover(case):
     """Saving INTO the debris of a crash: every distinct crash image of an overwriting save (stale / torn temporary sibling, old or new file under the
     final name) becomes the directory a further save is made into.  That save must succeed, produce a checkpoint that restores exactly, and be
@@ -458,7 +501,7 @@ def run_resume1(case):
     return r
 
 
-KINDS = {"recover": run_recover, "crash_run": run_crash_run, "crash": run_crash, "resume": run_resume, "resume1": run_resume1}
+KINDS = {"bigsave": run_bigsave, "recover": run_recover, "crash_run": run_crash_run, "crash": run_crash, "resume": run_resume, "resume1": run_resume1}
 
 FACTORS = [
     ("clustering", [False, True]),
@@ -490,6 +533,8 @@ def plan(ctx):
     crash.append({"kind": "crash_run", "cfg": dict(clustering=True, eval="blobs", blob_form="nan", n_particles=16, n_total=64), "driver": "run", "base": ctx.seed, "thorough": th})
     crash += [{"kind": "recover", "cfg": dict(clustering=clu, eval=ev, n_particles=16), "base": ctx.seed, "thorough": th} for clu, ev in ((False, "scalar"), (True, "blobs"), (False, "poolobj"))]
     ctx.explore("crash-points", crash)
+    ctx.explore("large-checkpoints", [{"kind": "bigsave", "cfg": dict(n_particles=4096, d=8, eval=ev, clustering=cl, n_total=10 ** 7), "extra_batches": eb, "base": ctx.seed}
+                                      for ev, cl, eb in (("vec", False, 32), ("blobs", True, 36))])
     strength = 3 if th else 2
     rows = lattice.covering_array(FACTORS, strength=strength, seed=ctx.seed)
     cov, tot = lattice.count_covered(rows, FACTORS, strength)
